@@ -664,6 +664,12 @@ theorem plain_scalars_are_scalar_fields :
     Gen.c20PlainScalars.all (fun s => Gen.c20Fields.any (fun f => f.owner ++ "." ++ f.tag == s && (f.ty == .scalar || f.ty == .ptr .scalar))) = true := by
   decide +kernel
 
+/-- the kind list names exactly the plain scalar fields, with one of the three kinds each -/
+theorem scalar_kinds_cover :
+    Gen.c20ScalarKinds.map (·.1) = Gen.c20PlainScalars ∧
+    Gen.c20ScalarKinds.all (fun r => r.2 == "string" || r.2 == "bool" || r.2 == "num") = true := by
+  decide +kernel
+
 theorem plain_scalars_cover :
     ["T.openapi", "Info.title", "Info.version", "Info.description", "Response.description"].all Gen.c20PlainScalars.contains = true := by
   decide +kernel
@@ -681,6 +687,10 @@ theorem decode_misfit_witness :
     -- each rule: array at a map, string at an object struct, number at a wrapper, object at a pointer to a scalar
     decodeMisfit (docPositions (.obj [("components", .obj [("schemas", .arr [])])])) = true ∧
     decodeMisfit (docPositions (.obj [("paths", .str "x")])) = true ∧
+    -- a number at a string, a string at a number, a string at a bool
+    decodeMisfit (docPositions (.obj [("info", .obj [("version", .num "1")])])) = true ∧
+    decodeMisfit (docPositions (.obj [("components", .obj [("schemas", .obj [("S", .obj [("minLength", .str "3")])])])])) = true ∧
+    decodeMisfit (docPositions (.obj [("components", .obj [("schemas", .obj [("S", .obj [("nullable", .str "x")])])])])) = true ∧
     decodeMisfit (docPositions (.obj [("components", .obj [("headers", .obj [("H", .num "1")])])])) = true ∧
     decodeMisfit (docPositions (.obj [("components", .obj [("responses", .obj [("R", .obj [("description", .obj [])])])])])) = true := by
   decide +kernel
